@@ -117,9 +117,10 @@ def rule_aspa(ctx):
                   'withdraw(a) = (a.withdraw(), Withdraw(a.providers)): same customer key, original providers retained', 'AspaAction::withdraw returns %s' % p.outcome)
     # keys compared are the customer keys of both sides
     for r in rows(ctx.facts, b):
-        for k in r['conds']:
-            if 'Ord' in k and 'cmp(' in k:
-                ctx.check('Aspa::key' in k, 'K4', 'AspaDelta::construct:compare-by-key', 'ASPAs are compared by customer key', 'ASPAs compared by %s' % k)
+        for k in list(r['conds']):
+            kk = r['conds'].get('cmp_operands', '') if k == 'cmp' else k
+            if 'Ord' in kk and 'cmp(' in kk:
+                ctx.check('Aspa::key' in kk, 'K4', 'AspaDelta::construct:compare-by-key', 'ASPAs are compared by customer key', 'ASPAs compared by %s' % kk)
 
 
 def rule_counters(ctx):
